@@ -18,6 +18,8 @@
 (*            object raised during query q: exc = "caller" (the injected   *)
 (*            exception itself came out) or "DebError"; anything else is   *)
 (*            not a step of the specification.                             *)
+(*         [op |-> "close", o, w, err]  close() / `with` exit (w = "all") *)
+(*            or the close() of one part (w = "control" | "data").         *)
 (* After a fault outside FaultDomOf the object is tainted: its events are  *)
 (* accepted whatever they say, until it is opened again.                   *)
 (***************************************************************************)
@@ -77,10 +79,14 @@ TStep == /\ l <= Len(Tr.events)
                  /\ e.kind \in ArKinds /\ e.w \in ArWhich
                  /\ ArCall(e.o, e.kind, e.w)
                  /\ hres'.out.err = e.err
+              \/ /\ e.op = "close"
+                 /\ e.w \in CloseWhich
+                 /\ Close(e.o, e.w)
+                 /\ hres'.out.err = e.err
               \/ /\ e.op = "fault"
                  /\ e.exc \in FaultExc
                  /\ Fault(e.o, e.q, IF e.q \in {"has", "get", "readbegin"} THEN <<e.p, e.sp, e.n>> ELSE <<>>)
-              \/ /\ e.op \in QueryOps \cup ReadOps \cup {"ar", "fault"}
+              \/ /\ e.op \in QueryOps \cup ReadOps \cup {"ar", "fault", "close"}
                  /\ e.o \in taint                       \* unspecified: whatever a tainted object says
                  /\ hres' = [op |-> "tainted", o |-> e.o]
                  /\ UNCHANGED <<objs, gen, tcache, ccache, rmemo, last, fh, strm, scan, taint>>
